@@ -1,5 +1,5 @@
 """C14 — encodings. Theorems over the byte-level models of the signing payload / tipset / VRF input, the
-merkle chain key (direct = batch, injective under hash collision-freeness) and a generic cbor-gen codec
+merkle chain key (direct = batch; key equality reduces to an exhibited hash collision) and a generic cbor-gen codec
 whose schema table is re-extracted from the Go sources on every run (tools/schemafacts ->
 lean/F3/Gen/Schema.lean). h_codec compares the real encoders / decoders with the executable models."""
 import os
@@ -74,7 +74,7 @@ def run(ctx):
         trusted_base=[
             "tools/schemafacts (go/ast extractor of struct fields, cborgen tags and the limits in cbor_gen.go) -> F3.Gen.Schema",
             "hand models F3.Payload, F3.Merkle, F3.Cbor (tied by h_codec, byte-for-byte)",
-            "keccak-256 and blake2b-256 collision-free with no all-zero digest (hypotheses of the key theorems); the "
+            "the key theorems are reductions: equal keys / signing bytes of different chains exhibit a collision or a zero-digest preimage of keccak-256, or a collision of blake2b-256, among the finitely many strings hashed by the two computations (*_collision_extract(_real); nothing is assumed of the hashes; the idealised-injectivity forms are kept as corollaries); the "
             "executable Lean hashes are used only by the driver",
             "external leaf codecs modelled, not verified: cbor-gen head reader/writer and CID framing, go-cid Cast, "
             "go-state-types big.Int bytes, go-bitfield RLE+ (opaque byte string), klauspost/zstd (abstract codec with a cap)",
